@@ -19,4 +19,5 @@ import PvModel.Props.C02Answer
 #print axioms Pv.C02_rel_state_normal
 #print axioms Pv.C02_rel_answer_instances
 #print axioms Pv.C02_reported_answer
+#print axioms Pv.C02_reify_goal
 #print axioms Pv.C02_reify_is_reifyState
